@@ -96,20 +96,37 @@ Definition pkt_eqb (a b : pkt) : bool :=
   &&& nlist_eqb (p_raw a) (p_raw b).
 
 (* The equivalence of the property: equal except the fields the kernel rewrites when it segments a superpacket
-   - the checksums, the IPv4 ID when DF is set (RFC 6864: it carries no meaning then) - and except bytes behind
-   the IP-declared length, which are not part of the IP datagram (ip_rcv trims them).  The IP / UDP length fields
-   are functions of the compared fields. *)
+   - the checksums, the IPv4 ID when DF is set (RFC 6864: it carries no meaning then; IPv6 has none) - and
+   except bytes behind the IP-declared length, which are not part of the IP datagram (ip_rcv trims them).  The
+   IP / UDP length fields are functions of the compared fields. *)
 Definition approxb (a b : pkt) : bool :=
   (p_proto a =? p_proto b) &&& shape_eqb (p_shape a) (p_shape b) &&& Bool.eqb (p_v6 a) (p_v6 b)
   &&& (p_src a =? p_src b) &&& (p_dst a =? p_dst b) &&& (p_sport a =? p_sport b) &&& (p_dport a =? p_dport b)
   &&& (p_tos a =? p_tos b) &&& (p_flow a =? p_flow b) &&& (p_ttl a =? p_ttl b) &&& (p_nxt a =? p_nxt b)
   &&& Bool.eqb (p_df a) (p_df b) &&& Bool.eqb (p_rsv a) (p_rsv b)
-  &&& ((p_df a &&& negb (p_v6 a)) || (p_id a =? p_id b))
+  &&& (p_v6 a || p_df a || (p_id a =? p_id b))
   &&& (p_seq a =? p_seq b) &&& (p_ack a =? p_ack b) &&& (p_x2 a =? p_x2 b) &&& (p_flags a =? p_flags b)
   &&& (p_win a =? p_win b) &&& (p_urg a =? p_urg b) &&& nlist_eqb (p_opts a) (p_opts b)
   &&& nlist_eqb (p_pay a) (p_pay b)
   &&& nlist_eqb (p_raw a) (p_raw b).
 Definition approx (a b : pkt) : Prop := approxb a b = true.
+
+(* Representation invariant of the abstraction: p_raw is only used by the opaque shapes, the TCP-only fields are
+   blank in a UDP packet, the sequence number and the IPv4 ID are 32 / 16 bit values.  (This is what the harness'
+   abstraction function produces; Coalesce_corr checks it on every staged packet.) *)
+Definition wf_pktb (p : pkt) : bool :=
+  match p_shape p with
+  | ShTcp => match p_raw p with [] => true | _ => false end
+             &&& (p_seq p <? 4294967296) &&& (p_id p <? 65536)
+  | ShUdp => match p_raw p with [] => true | _ => false end
+             &&& (p_id p <? 65536)
+             &&& (p_seq p =? 0) &&& (p_ack p =? 0) &&& (p_x2 p =? 0) &&& (p_flags p =? 0) &&& (p_win p =? 0)
+             &&& (p_urg p =? 0) &&& match p_opts p with [] => true | _ => false end
+  | _ => true
+  end.
+(* header fields are bytes / 16-bit words (needed only for the statement about the IPv4 header checksum) *)
+Definition ranges_okb (p : pkt) : bool :=
+  (p_tos p <? 256) &&& (p_ttl p <? 256) &&& (p_nxt p <? 256) &&& (p_id p <? 65536).
 
 (* field updates *)
 Definition with_flags (p : pkt) (f : N) : pkt :=
@@ -527,7 +544,7 @@ Fixpoint all_but_last {A} (f : A -> bool) (l : list A) : bool :=
 
 Definition sum_lens (l : list (list N)) : N := fold_right (fun x acc => N.of_nat (length x) + acc) 0 l.
 
-(* the geometry the kernel (and Offload.WriteGSO) accepts, plus consistency of the header fields *)
+(* the geometry the kernel (and Offload.WriteGSO) accepts, and consistency of the header length fields *)
 Definition geometry_okb (g : gso) : bool :=
   let h := g_hdr g in
   let gs := N.of_nat (gso_size g) in
@@ -542,6 +559,13 @@ Definition geometry_okb (g : gso) : bool :=
   && (g_iplen g =? (if p_v6 h then total - 40 else total))
   && (g_udplen g =? (if g_proto g =? 2 then total - iphl h else 0))
   && ((g_proto g =? 1) || (g_proto g =? 2))
-  && (if g_proto g =? 1 then is_shape ShTcp h else is_shape ShUdp h)
-  && (p_l4ck h =? fold16 (pseudo_sum h (if g_proto g =? 1 then 6 else 17) (total - iphl h)))
+  && (if g_proto g =? 1 then is_shape ShTcp h else is_shape ShUdp h).
+
+(* the checksum fields of a superpacket header: the L4 field holds the folded, not inverted pseudo-header sum
+   over the total L4 length (virtio NEEDS_CSUM), the IPv4 header checksum verifies *)
+Definition seeds_okb (g : gso) : bool :=
+  let h := g_hdr g in
+  let hl := if g_proto g =? 1 then tcp_hlen h else udp_hlen h in
+  let total := hl + sum_lens (g_pays g) in
+  (p_l4ck h =? fold16 (pseudo_sum h (if g_proto g =? 1 then 6 else 17) (total - iphl h)))
   && (p_v6 h || (fold16 (ipv4_hdr_sum h (g_iplen g) + p_ipck h) =? 65535)).
